@@ -56,6 +56,14 @@ def gen(tier, seed):
         cases.append({"U": fsl(U), "p": p, "kind": "large", "mults": [1] * (nseg - 1), "op": op, "P": pts_json(P),
                       "P2": pts_json([[F(rnd.randint(1, 9))] for _ in range(n)]), "integral": integral,
                       "W": fsl([F(1)] * n), "seed": rnd.randint(0, 10 ** 6)})
+    # single-span curves of degree 7 and 8 (quadrature rules with 8 and more nodes, Bernstein matrices of that size)
+    for op in (["integrate", "elevate_reduce", "insert_remove"] if tier != "quick" else ["integrate", rnd.choice(["elevate_reduce", "insert_remove"])]):
+        p = rnd.choice((7, 8))
+        U = [F(0)] * (p + 1) + [F(1)] * (p + 1)
+        P = [[F(rnd.randint(-36, 36), rnd.choice((2, 4, 3)))] for _ in range(p + 1)]
+        cases.append({"U": fsl(U), "p": p, "kind": "bezier-high", "mults": [], "op": op, "P": pts_json(P),
+                      "P2": pts_json([[F(rnd.randint(1, 9))] for _ in range(p + 1)]), "integral": False,
+                      "W": fsl([F(1)] * (p + 1)), "seed": rnd.randint(0, 10 ** 6)})
     return cases
 
 
@@ -189,7 +197,15 @@ def _run(case, conv, convp, generic=False):
         t.fit_points([c(z) for z in zs], zs)
         return t
     if op == "integrate":
-        return [Integrate.scalar(c)]
+        val = Integrate.scalar(c)
+        if conv is F_ID and convp is F_ID:
+            # exact data: the value is the closed form sum_i P_i (u_(i+p+1) - u_i) / (p + 1), exactly
+            Pn = [nums(pt)[0] for pt in case["P"]]
+            Un = nums(case["U"])
+            want = sum(Pn[i] * (Un[i + p + 1] - Un[i]) / (p + 1) for i in range(len(Pn)))
+            if val != want:
+                raise ArithmeticError(f"exact integral {val} != closed form {want}")
+        return [val]
     raise ValueError(op)
 
 
@@ -223,7 +239,7 @@ def impl(case):
         res["ints"] = None
     res["floats"] = capture(lambda: flat(lambda: _run(case, float, float)))
     res["np"] = capture(lambda: flat(lambda: _run(case, np.float64, np.float64)))
-    if case["op"] in GENERIC:
+    if case["op"] in GENERIC or case["op"] == "rational_eval":
         res["generic"] = capture(lambda: flat(lambda: _run(case, F_ID, F_ID, generic=True)))
     else:
         res["generic"] = None
@@ -258,4 +274,4 @@ def nontrivial(case):
 
 
 def evaluations(case):
-    return 4 + (1 if case["integral"] else 0) + (1 if case["op"] in GENERIC else 0)
+    return 4 + (1 if case["integral"] else 0) + (1 if (case["op"] in GENERIC or case["op"] == "rational_eval") else 0)
